@@ -106,8 +106,6 @@ def wire_classifier(an, n, argvals, env):
         if v is not None and v[0] == "rawslice" and v[1]:
             t = subst_ty(v[1], tsub)
             return Ex(ev(("RAW1" if v[2] else "BULK", t))), None
-        if v is not None and v[0] == "rawslice":
-            return Ex(ev(("RAW?",))), None
         n_ = arr_len(n["args"][1].get("ty")) or arr_len(a.get("ty"))
         if n_ is not None:
             return Ex(ev(("A", n_, None))), None
@@ -118,8 +116,6 @@ def wire_classifier(an, n, argvals, env):
         if v is not None and v[0] == "rawslice" and v[1]:
             t = subst_ty(v[1], tsub)
             return Ex(ev(("RAW1" if v[2] else "BULK", t))), None
-        if v is not None and v[0] == "rawslice":
-            return Ex(ev(("RAW?",))), None
         n_ = arr_len(n["args"][1].get("ty")) or arr_len(a.get("ty"))
         if n_ == 1 and a.get("k") == "Var":
             s = an.new_slot(1)
